@@ -1207,6 +1207,19 @@ def run_reward(ctx):
 
 
 # ------------------------------------------------------------------ producer path: real mempool -> real executor (C04)
+def pool_va_mode(repo):
+    """How executeTx treats the verified account of a pooled tx (model variants of Ledger.va_after_offer):
+    2 = never removed (F52, current), 1 = removed only after the comparison succeeded (F51 only), 0 = removed before comparing."""
+    try:
+        src = open(os.path.join(repo, "chain/chainhandle.go")).read()
+    except OSError:
+        return 2
+    if "tx.RemoveVerifedAccount()" not in src:
+        return 2
+    i, j = src.find("return types.ErrSignNotMatch"), src.find("tx.RemoveVerifedAccount()")
+    return 1 if 0 <= i < j else 0
+
+
 def gen_pool_case(rng, cid):
     r = rng
     accts = [10, 11, 12]
@@ -1233,6 +1246,13 @@ def gen_pool_case(rng, cid):
             nm = r.choice(list(owner))
             to = r.choice([a for a in accts if a != dest[nm]])
             steps.append({"op": "repoint", "name": nm, "owner": dest[nm], "to": to})   # owner == destination in this engine
+            dest[nm] = to
+    if r.random() < 0.3:
+        steps.append({"op": "attempt"})     # a block production that is discarded
+        if owner and r.random() < 0.7:
+            nm = r.choice(list(owner))
+            to = r.choice([a for a in accts if a != dest[nm]])
+            steps.append({"op": "repoint", "name": nm, "owner": dest[nm], "to": to})
             dest[nm] = to
     steps.append({"op": "produce"})
     if r.random() < 0.5:
@@ -1263,7 +1283,14 @@ def run_pool(ctx):
                                 {"op": "name", "name": 1, "owner": 10}, {"op": "repoint", "name": 1, "owner": 10, "to": 11},
                                 {"op": "put", "from": 201, "signer": 11, "nonce": 1, "to": 13, "amt": "5"},
                                 {"op": "repoint", "name": 1, "owner": 11, "to": 10}, {"op": "produce"}, {"op": "produce"}]}
-    cases = [seedlike, control, retry]
+    # residual of F51 (stated, not repaired): a tx EXECUTED in a block attempt that is then discarded has lost its
+    # verified account; the name is re-pointed; the next production offers it unbound
+    discarded = {"id": 4, "steps": [{"op": "fund", "id": 10, "amt": str(1000 * A)}, {"op": "fund", "id": 11, "amt": str(1000 * A)},
+                                    {"op": "name", "name": 1, "owner": 10},
+                                    {"op": "put", "from": 201, "signer": 10, "nonce": 1, "to": 13, "amt": "5"},
+                                    {"op": "attempt"}, {"op": "repoint", "name": 1, "owner": 10, "to": 11}, {"op": "produce"}]}
+    cases = [seedlike, control, retry, discarded]
+    va_mode = pool_va_mode(ctx.repo)
     for i in range(10 if ctx.tier == "quick" else 150):
         cases.append(gen_pool_case(ctx.rng, len(cases) + 1))
     fin = os.path.join(ctx.workdir, "pool.in")
@@ -1281,6 +1308,8 @@ def run_pool(ctx):
     pred, corr, txt, want, ntx = [], [], [HEADER], {}, 0
     for c in cases:
         offered = set()
+        passed = set()       # puts with an earlier offer that got past the verified-account comparison (observed)
+        unbound = set()      # puts whose pooled object has lost its verified account (as the code under test does it)
         for o in obs.get(c["id"], []):
             if o["op"] == "panic":
                 pred.append(("pool-panic", "producer path panicked: " + o.get("err", ""), {"case": c}))
@@ -1288,10 +1317,16 @@ def run_pool(ctx):
                 ntx += 1
                 st = c["steps"][t["put"]]
                 moved = sorted(int(i) for i in t["after"] if t["after"][i]["n"] != t["before"][i]["n"])
-                retried = t["put"] in offered     # executeTx REMOVES the verified account from the pooled object at its first attempt
+                retried = t["put"] in unbound
+                was_passed = t["put"] in passed
+                if t["err"] != "signature not matched":
+                    passed.add(t["put"])
+                # repaired code (F51): the verified account is removed only when the comparison succeeded; old code: at the first offer
+                if va_mode == 0 or (va_mode == 1 and t["err"] != "signature not matched"):
+                    unbound.add(t["put"])
                 offered.add(t["put"])
                 if not t["err"] and moved != [st["signer"]]:
-                    pred.append(("pool-retry-loses-verified-account" if retried else "pool-foreign-debit", "producer path: a pooled transaction signed by the key of account %d was executed against account %s "
+                    pred.append(("pool-retry-after-discarded-attempt" if was_passed else "pool-foreign-debit", "producer path: a pooled transaction signed by the key of account %d was executed against account %s "
                                  "(its sender name was re-pointed while it was pooled)" % (st["signer"], moved), {"case": c, "tx": st}))
                 # model: exec_tx_pooled with the account verified at admission (= the signer: admission checked the signature)
                 accs = "; ".join("(%s, {| bal := %s; nonce := %s; code := false |})" % (Ns(int(i)), a["b"], Ns(a["n"])) for i, a in sorted(t["before"].items()))
